@@ -33,7 +33,7 @@ func runC07(c *ev.Ctx) {
 		"Now and then the dirty side's consensus object is re-created over its own index object (fresh Build counter). Oracle: every later valid event gets the same Process result on both; candidates built on BOTH instances at common points get the same frame; newly emitted blocks are identical after every event; GetFrameRoots(f) is identical (as a set) for all frames after every 10th event and at the end and never contains a rejected event; epochs, validators and decided frames agree. " +
 		"non-trivial = distinct (run) with >=1 rejected root candidate and >=1 block decided afterwards"
 	c.Assumptions = []string{"the application does not store rejected events (the harness removes them from its event source)", "cheaters < 1/3"}
-	nR := c.Pick(150, 2500)
+	nR := c.Pick(200, 3000)
 	c.Parallel(nR, 0, func(i int) {
 		r := c.Rand("run", i)
 		o := &campOpts{maxN: 8, minEvents: 40, maxEvents: c.Pick(150, 350), maxEpochs: 2, cheat: cons.CheatBelowThird}
@@ -133,6 +133,41 @@ func runC07(c *ev.Ctx) {
 						return
 					}
 					builds++
+				}
+				// ---- a candidate with all parents is built and NOT submitted; the very next call submits another event of the
+				// same creator and seq (fewer parents) that claims the frame just built. Whatever the answer is, it must be the
+				// answer of an instance that never saw that Build (a throw-away restarted copy of the clean side)
+				if sp != nil && e.Frame() > sp.Frame() && len(others) > 0 && r.Intn(6) == 0 {
+					X := c04candidate(plan.Epoch, e.Creator(), sp, others)
+					if err := dirty.Build(X); err != nil {
+						m := desc()
+						m["error"] = err.Error()
+						c.Violation("build-failed", m)
+						return
+					}
+					builds++
+					Y := c04candidate(plan.Epoch, e.Creator(), sp, nil) // self-parent only: it can hardly have reached the frame it claims
+					Y.SetFrame(X.Frame())
+					Y.SetHashID(uint64(n)*31 + 77)
+					Y.Name = e.Name + "-claiming-the-built-frame"
+					var probe *cons.Inst
+					if p, _ := ev.Try(func() { probe = clean.Restart() }); p != nil {
+						c.Count("other_property_discrepancy_restart-failed", 1)
+						return
+					}
+					errC, errD := probe.Process(Y), dirty.Process(Y)
+					c.Count("events_claiming_a_frame_that_was_just_built", 1)
+					if (errC == nil) != (errD == nil) {
+						m := desc()
+						m["event"], m["without_the_build"], m["after_the_build"], m["built_frame"] = Y.Name, fmt.Sprint(errC), fmt.Sprint(errD), X.Frame()
+						c.Violation("later-event-accepted-differently", m)
+						return
+					}
+					if errD == nil {
+						c.Count("runs_ended_by_an_accepted_sibling", 1)
+						return // a sibling of e went in (legitimately, on both sides): the stream would now contain a fork of an honest validator
+					}
+					fails++
 				}
 				// ---- the consensus object of the dirty side is re-created over the same index object (the Build counter starts
 				// again, so later candidates get the temporary IDs of the never-submitted ones above)
